@@ -27,7 +27,7 @@ def handle (line : String) : String :=
     else if op == "blit" || op == "blitz" || op == "blit16" || op == "blitd" || op == "blitseq" || op == "blitdseq" then c19 toks
     else if op.startsWith "per_" then per toks
     else if op == "gsess" then gsess toks
-    else if op == "decomp" then c08 toks
+    else if op == "decomp" || op == "decomp2" then c08 toks
     else if op == "seal" || op == "ntlm_auth" || op == "ts_chal" || op == "ts_validate" then nlaOps toks
     else if op == "cssp" then csspOp toks
     else if op == "conn" then connOp toks
